@@ -164,7 +164,12 @@ func (fs *FS) Rename(oldname, newname string) error {
 	}
 
 	if oldPoint == newPoint {
-		return hackpadfs.Rename(oldMount, oldSubPath, newSubPath)
+		err := hackpadfs.Rename(oldMount, oldSubPath, newSubPath)
+		if linkErr, ok := err.(*hackpadfs.LinkError); ok && linkErr.Old == oldSubPath && linkErr.New == newSubPath {
+			// report the caller's paths, not the paths inside the mounted file system
+			err = &hackpadfs.LinkError{Op: linkErr.Op, Old: oldname, New: newname, Err: linkErr.Err}
+		}
+		return err
 	}
 	if oldInfo.IsDir() {
 		// TODO support renaming directories
